@@ -460,3 +460,34 @@ WITNESSES += [
     dict(id="c19-wicks-delta-helper-first", prop="C19", file=FU, expect="R19a",
          edits=[(_WICKS_OLD, "                result = _evaluate_contraction_deltas(expr, result)\n"), (_WICKS_ANCHOR, _wicks_helper(True))]),
 ]
+
+_F58_OLD = ("        self._expr = renamed\n        # the new name might belong to a tensor with known bra-ket\n"
+            "        # (anti)symmetry -> apply it to the renamed tensors\n"
+            "        if new in self._sym_tensors or new in self._antisym_tensors:\n            self._apply_tensor_braket_sym()\n        return self\n")
+
+WITNESSES += [
+    # F58: revert of 4d94c6e (the renamed sum is stored without the bra-ket symmetry the container declares for the new name)
+    dict(id="F58-revert", prop="C19", file=E, expect="R19j", old=_F58_OLD, new="        self._expr = renamed\n        return self\n"),
+    # ... the symmetry is only re-applied for symmetric, not for antisymmetric declarations
+    dict(id="c19-rename-braket-sym-only", prop="C19", file=E, expect="R19j",
+         old="        if new in self._sym_tensors or new in self._antisym_tensors:\n            self._apply_tensor_braket_sym()\n        return self\n",
+         new="        if new in self._sym_tensors:\n            self._apply_tensor_braket_sym()\n        return self\n"),
+    # ... the declaration of the OLD name decides
+    dict(id="c19-rename-braket-old-name", prop="C19", file=E, expect="R19j",
+         old="        if new in self._sym_tensors or new in self._antisym_tensors:\n            self._apply_tensor_braket_sym()\n        return self\n",
+         new="        if current in self._sym_tensors or current in self._antisym_tensors:\n            self._apply_tensor_braket_sym()\n        return self\n"),
+    # ... the symmetry is applied before the renamed sum is stored (to the tensors that still carry the old name)
+    dict(id="c19-rename-braket-before-store", prop="C19", file=E, expect="R19j", old=_F58_OLD,
+         new="        if new in self._sym_tensors or new in self._antisym_tensors:\n            self._apply_tensor_braket_sym()\n"
+             "        self._expr = renamed\n        return self\n"),
+    # preserving twins: the symmetry is applied unconditionally (idempotent on a consistent container) ...
+    dict(id="c19-ok-rename-braket-always", prop="C19", file=E, expect=None, old=_F58_OLD,
+         new="        self._expr = renamed\n        self._apply_tensor_braket_sym()\n        return self\n"),
+    # ... the renamed terms are collected with a comprehension and the declaration is tested on the union through the properties
+    dict(id="c19-ok-rename-braket-comprehension", prop="C19", file=E, expect=None,
+         old="        renamed = 0\n        for t in self.terms:\n            renamed += t.rename_tensor(current, new, return_sympy=True)\n" + _F58_OLD,
+         new="        self._expr = Add(*[term.rename_tensor(current=current, new=new, return_sympy=True)\n"
+             "                           for term in self.terms])\n"
+             "        declared = set(self.sym_tensors) | set(self.antisym_tensors)\n"
+             "        if new not in declared:\n            return self\n        return self._apply_tensor_braket_sym()\n"),
+]
